@@ -3,15 +3,19 @@
 package main
 
 import (
+	"errors"
 	"flag"
 	"fmt"
 	"math"
+	"net/url"
 	"os"
+	"path"
 	"runtime"
 	"strconv"
 	"strings"
 
 	gnet "github.com/panjf2000/gnet/v2"
+	errorx "github.com/panjf2000/gnet/v2/pkg/errors"
 	gmath "github.com/panjf2000/gnet/v2/pkg/math"
 	bsPool "github.com/panjf2000/gnet/v2/pkg/pool/byteslice"
 	rbPool "github.com/panjf2000/gnet/v2/pkg/pool/ringbuffer"
@@ -163,6 +167,9 @@ func step(ws []string) string {
 			}
 			return fmt.Sprintf("r=%d w=%d c=%d et=%s", r, w, c, util.B(e))
 		})
+	case "parse":
+		addr := string(util.UnHex(ws[1]))
+		return parseOp(addr)
 	case "gfd":
 		fd, el, row, col := atoi(ws[1]), atoi(ws[2]), atoi(ws[3]), atoi(ws[4])
 		rfd, rel, rrow, rcol, _ := gnet.VerifGFD(fd, el, row, col, false, 0, 0)
@@ -183,6 +190,188 @@ func step(ws []string) string {
 		return fmt.Sprintf("fd=%d el=%d row=%d col=%d", rfd, rel, rrow, rcol)
 	}
 	return "bad-op"
+}
+
+// wellFormed is set by the generator for addresses produced from the grammar: expected result
+var expect = map[string][2]string{}
+
+func parseOp(addr string) string {
+	var reply string
+	func() {
+		defer func() {
+			if r := recover(); r != nil {
+				util.Fail(fmt.Sprintf("parseProtoAddr(%q) panicked: %v", addr, r))
+				reply = "r=panic"
+			}
+		}()
+		proto, ep, err := gnet.VerifParseProtoAddr(addr)
+		switch {
+		case err == nil:
+			ok := false
+			for _, s := range []string{"tcp", "tcp4", "tcp6", "udp", "udp4", "udp6", "unix"} {
+				ok = ok || proto == s
+			}
+			if !ok || ep == "" {
+				util.Fail(fmt.Sprintf("parseProtoAddr(%q) = (%q, %q) without error", addr, proto, ep))
+			}
+			reply = fmt.Sprintf("r=ok scheme=%s ep=%s", proto, util.Hex([]byte(ep)))
+		case errors.Is(err, errorx.ErrInvalidNetworkAddress):
+			reply = "r=err:invalid"
+		case errors.Is(err, errorx.ErrUnsupportedProtocol):
+			reply = "r=err:unsupported"
+		default:
+			reply = "r=err:url"
+		}
+		// oracle for well-formed addresses (the grammar the property names)
+		if want, isWF := wellFormed(addr); isWF {
+			if reply != want {
+				util.Fail(fmt.Sprintf("parseProtoAddr(%q): %s, want %s", addr, reply, want))
+			}
+		}
+	}()
+	// what net/url and path return for the escaped address: inputs of the model
+	u, uerr := url.Parse(strings.ReplaceAll(addr, "%", "%25"))
+	ann := "1 - - - -"
+	if uerr == nil {
+		ann = fmt.Sprintf("0 %s %s %s %s", util.Hex([]byte(u.Scheme)), util.Hex([]byte(u.Host)), util.Hex([]byte(u.Path)), util.Hex([]byte(path.Join(u.Host, u.Path))))
+	}
+	return reply + " @@ " + ann
+}
+
+const hostChars = "abcdefghijklmnopqrstuvwxyz0123456789-."
+
+func isHostName(s string) bool {
+	if s == "" {
+		return false
+	}
+	for _, c := range s {
+		if !strings.ContainsRune(hostChars, c) {
+			return false
+		}
+	}
+	return true
+}
+
+func isPort(s string) bool {
+	if s == "" || len(s) > 5 {
+		return false
+	}
+	for _, c := range s {
+		if c < '0' || c > '9' {
+			return false
+		}
+	}
+	return true
+}
+
+// wellFormed recognises scheme "://" (name | v4 | "[" v6 ["%" zone] "]") ":" port and unix://path and
+// returns the reply the property demands.
+func wellFormed(addr string) (string, bool) {
+	i := strings.Index(addr, "://")
+	if i < 0 {
+		return "", false
+	}
+	scheme, rest := addr[:i], addr[i+3:]
+	lower := strings.ToLower(scheme)
+	ip := false
+	for _, s := range []string{"tcp", "tcp4", "tcp6", "udp", "udp4", "udp6"} {
+		ip = ip || lower == s
+	}
+	if ip {
+		j := strings.LastIndex(rest, ":")
+		if j < 0 || !isPort(rest[j+1:]) {
+			return "", false
+		}
+		host := rest[:j]
+		if strings.HasPrefix(host, "[") && strings.HasSuffix(host, "]") {
+			in := host[1 : len(host)-1]
+			z := ""
+			if k := strings.Index(in, "%"); k >= 0 {
+				in, z = in[:k], in[k+1:]
+				if !isHostName(z) {
+					return "", false
+				}
+			}
+			for _, c := range in {
+				if !strings.ContainsRune("0123456789abcdef:", c) {
+					return "", false
+				}
+			}
+			if in == "" {
+				return "", false
+			}
+		} else if !isHostName(host) {
+			return "", false
+		}
+		return fmt.Sprintf("r=ok scheme=%s ep=%s", lower, util.Hex([]byte(rest))), true
+	}
+	if lower == "unix" {
+		for _, c := range rest {
+			if !strings.ContainsRune(hostChars+"/_", c) {
+				return "", false
+			}
+		}
+		if rest == "" {
+			return "r=err:invalid", true
+		}
+		if strings.Contains(rest, ":") {
+			return "", false
+		}
+		return fmt.Sprintf("r=ok scheme=unix ep=%s", util.Hex([]byte(path.Clean(rest)))), true
+	}
+	return "", false
+}
+
+func genAddr(r *util.Rng) string {
+	schemes := []string{"tcp", "tcp4", "tcp6", "udp", "udp4", "udp6", "unix", "TCP", "Udp4", "http", "", "unixgram", "tcp7"}
+	sc := schemes[r.Intn(len(schemes))]
+	name := func() string {
+		parts := []string{"localhost", "example.com", "a", "x-1.y", "0"}
+		return parts[r.Intn(len(parts))]
+	}
+	host := ""
+	switch r.Intn(6) {
+	case 0:
+		host = name()
+	case 1:
+		host = fmt.Sprintf("%d.%d.%d.%d", r.Intn(256), r.Intn(256), r.Intn(256), r.Intn(256))
+	case 2:
+		host = "[::1]"
+	case 3:
+		host = fmt.Sprintf("[fe80::%x:%x%%%s]", r.Intn(65536), r.Intn(65536), []string{"eth0", "lo0", "1", "en-1"}[r.Intn(4)])
+	case 4:
+		host = fmt.Sprintf("[2001:db8::%x]", r.Intn(65536))
+	case 5:
+		host = ""
+	}
+	port := []string{"80", "0", "65535", "9851", "", "x", "123456"}[r.Intn(7)]
+	sep := []string{"://", "://", "://", ":", ":/", "//", ""}[r.Intn(7)]
+	if strings.ToLower(sc) == "unix" {
+		p := []string{"/tmp/a.sock", "a.sock", "/tmp/../x/./y.sock", "/", "", "dir/sub/s", "/a//b/"}[r.Intn(7)]
+		return sc + sep + p
+	}
+	s := sc + sep + host
+	if r.Intn(8) != 0 {
+		s += ":" + port
+	}
+	if r.Intn(12) == 0 {
+		s += []string{"/path", "?q=1", "#frag", "/", " "}[r.Intn(5)]
+	}
+	return s
+}
+
+func genMalformed(r *util.Rng) string {
+	alphabet := []byte("a:/[]%@?#.1 \x00\\tcpunix-_~!$&'()*+,;=<>\"{}|^`\x7f\x80\xff")
+	n := r.Intn(14)
+	b := make([]byte, n)
+	for i := range b {
+		b[i] = alphabet[r.Intn(len(alphabet))]
+	}
+	s := string(b)
+	if r.Intn(2) == 0 {
+		s = []string{"tcp://", "unix://", "udp6://[", "tcp:", "://"}[r.Intn(5)] + s
+	}
+	return s
 }
 
 func interesting(r *util.Rng) int {
@@ -215,6 +404,7 @@ func main() {
 	mode := flag.String("mode", "exec", "gen|exec")
 	seed := flag.Int64("seed", 1, "PRNG seed")
 	cases := flag.Int("cases", 1000, "number of ops per kind")
+	kind := flag.String("kind", "arith", "arith|parse")
 	flag.Parse()
 	switch *mode {
 	case "gen":
@@ -223,8 +413,27 @@ func main() {
 		ncpu := runtime.NumCPU()
 		id := 0
 		emit := func(s string) {
+			if *kind == "norm" && !strings.HasPrefix(s, "norm") && !strings.HasPrefix(s, "evloops") {
+				return
+			}
 			fmt.Fprintf(&b, "case %d\n%s\n", id, s)
 			id++
+		}
+		if *kind == "parse" {
+			wf, mal := 0, 0
+			for i := 0; i < *cases; i++ {
+				a := genAddr(r)
+				if i%3 == 2 {
+					a = genMalformed(r)
+					mal++
+				} else {
+					wf++
+				}
+				emit("parse " + util.Hex([]byte(a)))
+			}
+			os.Stdout.WriteString(b.String())
+			fmt.Fprintf(os.Stderr, "DIST grammar=%d malformed=%d\n", wf, mal)
+			return
 		}
 		// systematic: every 2^k-1, 2^k, 2^k+1 and the midpoints
 		for k := 0; k < 64; k++ {
